@@ -311,7 +311,7 @@ func genAmount(t *rapid.T) string {
 	if n.Cmp(max) > 0 {
 		n = max
 	}
-	switch rapid.IntRange(0, 11).Draw(t, "spelling") {
+	switch rapid.IntRange(0, 19).Draw(t, "spelling") {
 	case 0:
 		return "+" + n.String()
 	case 1:
@@ -757,7 +757,7 @@ func TestC35Bytes(t *testing.T) {
 		ID: "C35",
 		Rule: fmt.Sprintf("bytes for one of %d decoders (ICS-20 json/proto/abi/default, GMP data+ack x3, attestation state/packet): %d seeds = valid encodings + hostile constants + saved fuzz corpus (all replayed unmutated first), then truncated / bit-flipped / spliced with hostile words, or raw random; "+
 			"oracle = no panic, and any value a decoder returns must itself round-trip under every encoding; non-trivial = the decoder accepted the bytes; distinct by (decoder, bytes)", len(targets), n),
-		MinNTFrac: 0.1,
+		MinNTFrac: 0.05,
 		Gen:       genByteCase(targets),
 		Run:       runC35Bytes,
 	})
